@@ -143,3 +143,112 @@ Theorem C13_native_per_oer_decode_exact : forall cs : list Z,
   INTEGER_to_native false cs = Some (reg_of (twos_value cs)).
 Proof. exact INTEGER_to_native_exact. Qed.
 Print Assumptions C13_native_per_oer_decode_exact.
+
+(* ------------------------------------------------------------------------------------
+   Round 2 (strengthening): the options that change STRUCTURES, not the integer leaf.
+   (a) pointer vs inline member representation (-findirect-choice; DEFAULT members under
+       -fwide-types): Rt/Layout.v models the structure image with slots that hold the
+       member or a pointer to it, the member fetch through the ATF_POINTER flag, and the
+       OER / DER encoders and asn_TYPE_outmost_tag walking the structure as the C does.
+       For EVERY layout the walk yields the bytes of the representation-free codec model;
+   (b) the descriptor tables: the erasure of what the options may change (Rt/Options.v),
+       soundness of the table comparison the check runs on the dumped tables, and the
+       emitter's decision for the OER / PER constraint slots. *)
+From A1 Require Import Rt.Types Rt.Der Rt.Oer Rt.Layout Rt.LayoutProofs Rt.WfDescr Rt.Options Rt.OptionsProofs.
+
+Theorem C13_outmost_tag_any_layout : forall t l x v,
+  Layout.abs t l x = Some v -> outmost_tag_c t l x = outmost_tag t v.
+Proof. exact outmost_tag_c_abs. Qed.
+Print Assumptions C13_outmost_tag_any_layout.
+
+Theorem C13_oer_walk_is_the_model : forall t l x v,
+  Layout.abs t l x = Some v -> oer_c t l x = oer t v.
+Proof. exact oer_c_abs. Qed.
+Print Assumptions C13_oer_walk_is_the_model.
+
+Theorem C13_der_walk_is_the_model : forall t l x v,
+  Layout.abs t l x = Some v -> der_c t l x = der t v.
+Proof. exact der_c_abs. Qed.
+Print Assumptions C13_der_walk_is_the_model.
+
+(* DESIGN's enc_depends_on_erasure for the pointer flags: structures built for different
+   layouts that denote the same value encode to the same bytes *)
+Theorem C13_oer_layout_invariant : forall t l1 s1 l2 s2 v,
+  Layout.abs t l1 s1 = Some v -> Layout.abs t l2 s2 = Some v -> oer_c t l1 s1 = oer_c t l2 s2.
+Proof. exact oer_layout_invariant. Qed.
+Print Assumptions C13_oer_layout_invariant.
+
+Theorem C13_der_layout_invariant : forall t l1 s1 l2 s2 v,
+  Layout.abs t l1 s1 = Some v -> Layout.abs t l2 s2 = Some v -> der_c t l1 s1 = der_c t l2 s2.
+Proof. exact der_layout_invariant. Qed.
+Print Assumptions C13_der_layout_invariant.
+
+(* the structures exist for every layout that can hold the value *)
+Theorem C13_repr_denotes : forall t l v x, repr t l v = Some x -> Layout.abs t l x = Some v.
+Proof. exact repr_abs. Qed.
+Print Assumptions C13_repr_denotes.
+
+Theorem C13_two_builds_same_bytes : forall t v l1 l2 s1 s2,
+  repr t l1 v = Some s1 -> repr t l2 v = Some s2 ->
+  oer_c t l1 s1 = oer_c t l2 s2 /\ der_c t l1 s1 = der_c t l2 s2.
+Proof. exact oer_two_builds_same_bytes. Qed.
+Print Assumptions C13_two_builds_same_bytes.
+
+(* the seeded order of CHOICE_encode_oer (tag asked at the slot address before the pointer
+   is resolved) is separated from the model on a pointer layout, and only there *)
+Theorem C13_tag_at_slot_differs_on_pointer_layout :
+  on_repr ex_t ex_indirect ex_v Some <> None /\
+  on_repr ex_t ex_indirect ex_v (oer_c_tag_at_slot ex_t ex_indirect) <> oer ex_t ex_v /\
+  on_repr ex_t ex_inline ex_v (oer_c_tag_at_slot ex_t ex_inline) = oer ex_t ex_v.
+Proof. exact (conj (proj1 tag_at_slot_indirect_differs) (conj (proj2 tag_at_slot_indirect_differs) tag_at_slot_inline_ok)). Qed.
+Print Assumptions C13_tag_at_slot_differs_on_pointer_layout.
+
+(* descriptor level: what the erasure forgets ... *)
+Theorem C13_view_ignores_layout_and_native : forall hp ho xml c ptrs flip d,
+  view_of hp ho xml c (rebuild ptrs flip d) = view_of hp ho xml c d.
+Proof. exact view_ignores_layout_and_native. Qed.
+Print Assumptions C13_view_ignores_layout_and_native.
+
+(* ... and what it keeps: every table the codecs read *)
+Theorem C13_view_keeps_codec_tables : forall xml a b,
+  view_of true true xml None a = view_of true true xml None b ->
+  d_tags (nd a) = d_tags (nd b) /\ d_all (nd a) = d_all (nd b) /\
+  d_per (nd a) = d_per (nd b) /\ d_oer (nd a) = d_oer (nd b) /\ d_bad (nd a) = d_bad (nd b) /\
+  map m_per (d_elems (nd a)) = map m_per (d_elems (nd b)) /\
+  map m_oer (d_elems (nd a)) = map m_oer (d_elems (nd b)) /\
+  map m_tag (d_elems (nd a)) = map m_tag (d_elems (nd b)) /\
+  map m_tmode (d_elems (nd a)) = map m_tmode (d_elems (nd b)) /\
+  map m_opt (d_elems (nd a)) = map m_opt (d_elems (nd b)) /\
+  map m_default (d_elems (nd a)) = map m_default (d_elems (nd b)).
+Proof. exact view_keeps_codec_tables. Qed.
+Print Assumptions C13_view_keeps_codec_tables.
+
+(* the comparison the check runs on every pair of dumped tables: a verdict VSim exhibits a
+   bisimulation (equal views, related member types) that contains every PDU pair *)
+Theorem C13_table_sim_sound : forall hp ho TA TB,
+  table_sim hp ho TA TB = VSim ->
+  nt_roots TA = nt_roots TB /\
+  exists R, bisimulation hp ho (nt_descrs TA) (nt_descrs TB) R /\
+            forall it, In it (root_items (nt_roots TA)) -> R it.
+Proof. exact table_sim_sound. Qed.
+Print Assumptions C13_table_sim_sound.
+
+(* the emitter: no representation option reaches the OER / PER slots *)
+Theorem C13_type_codec_slots_option_invariant : forall f f' ti,
+  gf_oer f = gf_oer f' -> gf_per f = gf_per f' ->
+  codec_slots (type_slots f ti) = codec_slots (type_slots f' ti).
+Proof. exact type_codec_slots_option_invariant. Qed.
+Print Assumptions C13_type_codec_slots_option_invariant.
+
+Theorem C13_member_codec_slots_option_invariant : forall f f' c,
+  gf_oer f = gf_oer f' -> gf_per f = gf_per f' ->
+  codec_slots (member_slots f c) = codec_slots (member_slots f' c).
+Proof. exact member_codec_slots_option_invariant. Qed.
+Print Assumptions C13_member_codec_slots_option_invariant.
+
+(* the shared test of seeded change C13-3 is a different function: it lets -fno-constraints through *)
+Theorem C13_seeded_slots_depend_on_no_constraints :
+  exists f f' ti, gf_oer f = gf_oer f' /\ gf_per f = gf_per f' /\
+    codec_slots (type_slots_seeded f ti) <> codec_slots (type_slots_seeded f' ti).
+Proof. exact seeded_slots_depend_on_no_constraints. Qed.
+Print Assumptions C13_seeded_slots_depend_on_no_constraints.
